@@ -376,3 +376,106 @@ fd!(c03_fill_mp_c7, hk_c03_fill_mp_c7, MpB, 7, 8);
 fd!(c03_fill_bc_c8, hk_c03_fill_bc_c8, BcB, 8, 8);
 fd!(c03_fill_mp_c9, hk_c03_fill_mp_c9, MpB, 9, 16);
 
+
+// ==========================================================================================
+// C05 sequential templates: a fixed skeleton of operations whose repetition counts and options
+// are chosen by the solver (cheaper than a free choice of operation at every step), followed by
+// the teardown of every handle in a solver-chosen order.  Instrumented payload: nothing may be
+// dropped twice (asserted in Drop) and nothing may survive the last handle.
+//
+//   ps sends | [second stream or second handle] | pr0 receives on rx0 | pr1 receives on rx1
+//   | ps2 more sends (overwrite slots every stream has passed) | [view one in place] | teardown
+
+pub fn drop_template<F: Fl, const SECOND: u8>(cap: u64, n: u8) {
+    // SECOND: 0 = nothing, 1 = rx1 = rx0.clone(), 2 = rx1 = rx0.add_stream()
+    payload::reset();
+    sched::configure(0, 0, 0, 0);
+    let mut w = World::<F>::new(cap);
+    set_world::<F>(&mut w);
+    if SECOND == 1 {
+        w.rx[1] = Some(F::clone_rx(w.rx[0].as_ref().unwrap()));
+    } else if SECOND == 2 {
+        w.rx[1] = Some(F::add_stream(w.rx[0].as_ref().unwrap()));
+    }
+    let ps: u8 = kani::any();
+    let pr0: u8 = kani::any();
+    let pr1: u8 = kani::any();
+    let ps2: u8 = kani::any();
+    kani::assume(ps <= n && pr0 <= ps && pr1 <= ps && ps2 <= n);
+    let mut next: u8 = 1;
+    let mut accepted: u8 = 0;
+    let mut i = 0;
+    while i < n {
+        if i < ps {
+            if F::try_send(w.tx[0].as_ref().unwrap(), F::P::mk(next)).is_ok() {
+                accepted += 1;
+            }
+            next += 1;
+        }
+        i += 1;
+    }
+    let mut got0: u8 = 0;
+    let mut i = 0;
+    while i < n {
+        if i < pr0 {
+            if F::try_recv(w.rx[0].as_ref().unwrap()).is_ok() {
+                got0 += 1;
+            }
+        }
+        if SECOND != 0 && i < pr1 {
+            let _ = F::try_recv(w.rx[1].as_ref().unwrap());
+        }
+        i += 1;
+    }
+    let mut i = 0;
+    while i < n {
+        if i < ps2 {
+            if F::try_send(w.tx[0].as_ref().unwrap(), F::P::mk(next)).is_ok() {
+                accepted += 1;
+            }
+            next += 1;
+        }
+        i += 1;
+    }
+    let view: bool = kani::any();
+    if view && SECOND != 1 {
+        let r = w.rx[0].take().unwrap();
+        match F::into_single(r) {
+            Ok(mut u) => {
+                let _ = F::u_try_view(&mut u);
+                w.ux[0] = Some(u);
+            }
+            Err(r) => w.rx[0] = Some(r),
+        }
+    }
+    kani::cover!(accepted > n, "a slot was overwritten after every stream had passed it");
+    kani::cover!(accepted > got0 && ps2 > 0, "values are still queued at teardown");
+    // teardown order: senders first or receivers first
+    let senders_first: bool = kani::any();
+    if senders_first {
+        drop(w.tx[0].take());
+    }
+    let rx1_first: bool = kani::any();
+    if rx1_first {
+        drop(w.rx[1].take());
+    }
+    drop(w.ux[0].take());
+    drop(w.rx[0].take());
+    drop(w.rx[1].take());
+    drop(w.tx[0].take());
+    assert!(
+        payload::n_alive() == 0,
+        "C05: a payload or clone was never dropped after the last handle went away"
+    );
+}
+
+macro_rules! dt {
+    ($name:ident, $hk:ident, $f:ty, $second:literal, $cap:literal, $n:literal) => {
+        crate::mq_harness!($name, $hk, Idle, drop_template::<$f, $second>($cap, $n));
+    };
+}
+dt!(c05_seq_bc_n2_streams, hk_c05_seq_bc_n2_streams, BcT, 2, 2, 2);
+dt!(c05_seq_bc_n1_shared, hk_c05_seq_bc_n1_shared, BcT, 1, 1, 1);
+dt!(c05_seq_mp_n2_shared, hk_c05_seq_mp_n2_shared, MpT, 1, 2, 2);
+dt!(c05_seq_mp_n1_single, hk_c05_seq_mp_n1_single, MpT, 0, 1, 1);
+dt!(c05_seq_bc_n2_single, hk_c05_seq_bc_n2_single, BcT, 0, 2, 2);
